@@ -40,7 +40,7 @@ def rule_dispatch(program, ctx):
         "kv.compile_match_from_query is a decision list over `key`; for every literal key the planner appends ((\"since\", v), (\"until\", v), "
         "ids, authors, kinds, search) the first branch test naming that key must be `key == <lit>` with no additional conjunct that mentions "
         "`value` - a value-dependent conjunct sends legal values (0) to the catch-all tag branch",
-        floor=5,
+        floor=3,
     )
     pl = program.func("nostr_relay.storage.kv:planner")
     emitted = {}
@@ -85,7 +85,7 @@ def rule_presence(program, ctx):
         "C02.presence",
         "stored-query path (kv.planner, db.evaluate_filter): since/until - declared ge=0 - are tested with `is not None` where the condition "
         "is compiled",
-        floor=4,
+        floor=2,
     )
     for q, var in (("nostr_relay.storage.kv:planner", "query"), ("nostr_relay.storage.db:Subscription.evaluate_filter", "filter_obj")):
         fn = program.func(q)
@@ -106,7 +106,7 @@ def rule_authors(program, ctx):
         "C02.authors",
         "sibling agreement of the authors clause: SQL skeleton, generated LMDB clause and in-memory check_event either all consult the "
         "`delegation` tag (NIP-26) or none does",
-        floor=3,
+        floor=1,
     )
     sites = {
         "SQL": program.func("nostr_relay.storage.db:Subscription.evaluate_filter"),
@@ -144,7 +144,7 @@ def rule_layout(program, ctx, prop=P, rid="C02.layout"):
         "key layout table derived from Index.write: key = <index key> 00 <created_at: N bytes from to_bytes(N)> 00 <id: 32 bytes>; every slice of a "
         "key in kv.py must be [-(33+N):-33] for the timestamp and [-32:] for the id; scanner converts since/until with the same N; "
         "NostrQuery.since/until `lt` fits N bytes; to_key of the fixed-width indexes uses to_bytes(4)/32-byte values",
-        floor=6,
+        floor=3,
     )
     wr = program.func("nostr_relay.storage.kv:Index.write")
     N = None
@@ -229,7 +229,7 @@ def rule_shared(program, ctx, prop=P, rid="C02.shared"):
         "classes instantiated in the INDEXES registry are process-wide singletons shared by the query thread pool and the writer thread: outside "
         "__init__ (and FTSIndex's lazy properties) their methods neither assign nor mutate attributes of self - per-scan state on the singleton "
         "makes overlapping scans skip each other's results",
-        floor=6,
+        floor=3,
     )
     kv = program.module("nostr_relay.storage.kv")
     reg = next((s.value for s in kv.tree.body if isinstance(s, ast.Assign) and any(isinstance(t, ast.Name) and t.id == "INDEXES" for t in s.targets) and isinstance(s.value, ast.Dict)), None)
